@@ -15,11 +15,11 @@ pub struct Live {
 }
 
 #[derive(Clone, Copy, PartialEq)]
-pub enum Profile { Graph, Kv, Alias, Index, Txn, Search, All, Hash }
+pub enum Profile { Graph, Kv, Alias, Index, Txn, Search, All, Hash, Big }
 
 pub fn profile_of(s: &str) -> Profile {
     match s { "graph" => Profile::Graph, "kv" => Profile::Kv, "alias" => Profile::Alias, "index" => Profile::Index,
-              "txn" => Profile::Txn, "search" => Profile::Search, "hash" => Profile::Hash, _ => Profile::All }
+              "txn" => Profile::Txn, "search" => Profile::Search, "big" => Profile::Big, "hash" => Profile::Hash, _ => Profile::All }
 }
 
 pub fn gen_key(r: &mut Rng) -> DbValue {
@@ -69,6 +69,106 @@ pub fn gen_alias(r: &mut Rng, live: &Live, fresh_bias: u64) -> String {
             _ => format!("al{}", r.below(8)),
         }
     }
+}
+
+// profile-aware alias: the `hash` profile (C19) draws fresh aliases from a pool of 600 names so that a
+// history of a few hundred steps uses several hundred DISTINCT hashed keys; every other profile is
+// unchanged (same PRNG consumption as gen_alias).
+pub fn gen_alias_p(r: &mut Rng, live: &Live, fresh_bias: u64, p: Profile) -> String {
+    if p != Profile::Hash { return gen_alias(r, live, fresh_bias); }
+    if !live.aliases.is_empty() && !r.chance(fresh_bias, 10) {
+        r.pick(&live.aliases).clone()
+    } else {
+        hash_alias(r)
+    }
+}
+
+fn hash_alias(r: &mut Rng) -> String {
+    match r.below(10) {
+        0 => format!("a-long-alias-name-exceeding-fifteen-bytes-{}", r.below(200)),
+        _ => format!("h{}", r.below(400)),
+    }
+}
+
+fn distinct_sample<T: Clone>(r: &mut Rng, xs: &[T], k: usize) -> Vec<T> {
+    let mut v: Vec<T> = xs.to_vec();
+    let k = k.min(v.len());
+    for i in 0..k {
+        let j = i + r.below((v.len() - i) as u64) as usize;
+        v.swap(i, j);
+    }
+    v.truncate(k);
+    v
+}
+
+// C19 (`hash` profile only): bulk operations that drive the alias maps (String -> DbId, DbId -> String) and
+// the index multimap (DbValue -> DbId) across the 64 / 128 / 256 capacity boundaries in both directions
+// within one history, with hundreds of distinct hashed keys.
+fn gen_hash_bulk(r: &mut Rng, live: &Live) -> Option<Q> {
+    if !r.chance(2, 5) { return None; }
+    let index_key = || DbValue::String("k0".into());
+    Some(match r.below(12) {
+        0 | 1 => { // many new nodes with fresh aliases (and an indexed value each, half of the time)
+            let n = r.range(8, 90) as usize;
+            let mut aliases: Vec<String> = vec![];
+            for _ in 0..4 * n {
+                if aliases.len() >= n { break; }
+                let a = hash_alias(r);
+                if !aliases.contains(&a) && !live.aliases.contains(&a) { aliases.push(a); }
+            }
+            let n = aliases.len();
+            let vals = if r.chance(1, 2) {
+                Qvalues::Multi((0..n).map(|_| vec![DbKeyValue { key: index_key(), value: DbValue::I64(r.below(1000) as i64) }]).collect())
+            } else { Qvalues::Single(vec![]) };
+            Q::InsertNodes(0, vals, aliases, Qids::Ids(vec![]))
+        }
+        2 | 3 => { // remove many aliases (a random subset of the live ones, plus a few unknown)
+            if live.aliases.is_empty() { return None; }
+            let k = r.range(1, live.aliases.len() as u64) as usize;
+            let mut l = distinct_sample(r, &live.aliases, k);
+            for _ in 0..r.below(3) { l.push(hash_alias(r)); }
+            Q::RemoveAliases(l)
+        }
+        4 => { // re-alias many existing nodes with fresh names (remove_key twice + insert each)
+            if live.nodes.is_empty() { return None; }
+            let k = r.range(1, live.nodes.len().min(70) as u64) as usize;
+            let ids = distinct_sample(r, &live.nodes, k);
+            let mut aliases: Vec<String> = vec![];
+            for _ in 0..4 * ids.len() {
+                if aliases.len() >= ids.len() { break; }
+                let a = hash_alias(r);
+                if !aliases.contains(&a) { aliases.push(a); }
+            }
+            let ids: Vec<i64> = ids.into_iter().take(aliases.len()).collect();
+            Q::InsertAliases(Qids::Ids(ids.into_iter().map(Qid::Id).collect()), aliases)
+        }
+        5 => Q::InsertIndex(index_key()),
+        6 | 7 => { // many distinct indexed values
+            let mut elems: Vec<i64> = live.nodes.clone();
+            elems.extend(live.edges.iter().cloned());
+            if elems.is_empty() { return None; }
+            let k = r.range(1, elems.len().min(90) as u64) as usize;
+            let ids = distinct_sample(r, &elems, k);
+            let vals = Qvalues::Multi(ids.iter().map(|_| vec![DbKeyValue { key: index_key(),
+                value: if r.chance(1, 6) { DbValue::String(format!("v{}", r.below(300))) } else { DbValue::I64(r.below(1000) as i64) } }]).collect());
+            Q::InsertValues(Qids::Ids(ids.into_iter().map(Qid::Id).collect()), vals)
+        }
+        8 => { // remove the indexed key from many elements
+            let mut elems: Vec<i64> = live.nodes.clone();
+            elems.extend(live.edges.iter().cloned());
+            if elems.is_empty() { return None; }
+            let k = r.range(1, elems.len() as u64) as usize;
+            let ids = distinct_sample(r, &elems, k);
+            Q::RemoveValues(Qids::Ids(ids.into_iter().map(Qid::Id).collect()), vec![index_key()])
+        }
+        9 | 10 => { // remove many nodes (their aliases, values and index entries go with them)
+            if live.nodes.is_empty() { return None; }
+            let k = r.range(1, live.nodes.len() as u64) as usize;
+            let ids = distinct_sample(r, &live.nodes, k);
+            Q::Remove(Qids::Ids(ids.into_iter().map(Qid::Id).collect()))
+        }
+        _ => if r.chance(1, 3) { Q::RemoveIndex(index_key()) } else { Q::InsertIndex(index_key()) },
+    })
 }
 
 fn some_node(r: &mut Rng, live: &Live) -> i64 {
@@ -154,6 +254,9 @@ fn gen_qvalues(r: &mut Rng, count: usize) -> Qvalues {
 }
 
 pub fn gen_mut(r: &mut Rng, live: &Live, p: Profile) -> Q {
+    if p == Profile::Hash {
+        if let Some(q) = gen_hash_bulk(r, live) { return q; }
+    }
     // weights: [insert_nodes, insert_edges, insert_aliases, insert_values, insert_index, remove_index, remove, remove_aliases, remove_values]
     let w: [u64; 9] = match p {
         Profile::Graph => [8, 10, 1, 2, 0, 0, 8, 0, 1],
@@ -174,12 +277,12 @@ pub fn gen_mut(r: &mut Rng, live: &Live, p: Profile) -> Q {
                     let ids = gen_ids(r, live, true, 3, true);
                     let n = if let Qids::Ids(l) = &ids { l.len() } else { 1 };
                     // insert-or-update may also (re)assign aliases of the existing nodes
-                    let aliases: Vec<String> = if r.chance(1, 2) { (0..r.below(n as u64 + 1)).map(|_| gen_alias(r, live, 4)).collect() } else { vec![] };
+                    let aliases: Vec<String> = if r.chance(1, 2) { (0..r.below(n as u64 + 1)).map(|_| gen_alias_p(r, live, 4, p)).collect() } else { vec![] };
                     Q::InsertNodes(0, gen_qvalues(r, n), aliases, ids)
                 }
                 1 | 2 => { // with aliases
                     let n = r.range(1, 3) as usize;
-                    let aliases: Vec<String> = (0..n).map(|_| gen_alias(r, live, 7)).collect();
+                    let aliases: Vec<String> = (0..n).map(|_| gen_alias_p(r, live, 7, p)).collect();
                     let vals = if r.chance(1, 2) { Qvalues::Single(gen_kvs(r, 3)) } else { Qvalues::Multi((0..n + r.below(2) as usize).map(|_| gen_kvs(r, 3)).collect()) };
                     Q::InsertNodes(0, vals, aliases, Qids::Ids(vec![]))
                 }
@@ -207,7 +310,7 @@ pub fn gen_mut(r: &mut Rng, live: &Live, p: Profile) -> Q {
         2 => {
             let n = r.range(1, 2) as usize;
             let ids: Vec<Qid> = (0..n).map(|_| if r.chance(1, 10) { Qid::Id(some_edge(r, live)) } else { gen_qid(r, live, true) }).collect();
-            let mut aliases: Vec<String> = (0..n).map(|_| if r.chance(1, 25) { String::new() } else { gen_alias(r, live, 5) }).collect();
+            let mut aliases: Vec<String> = (0..n).map(|_| if r.chance(1, 25) { String::new() } else { gen_alias_p(r, live, 5, p) }).collect();
             if r.chance(1, 20) { aliases.push("extra".into()); }
             Q::InsertAliases(Qids::Ids(ids), aliases)
         }
@@ -219,7 +322,7 @@ pub fn gen_mut(r: &mut Rng, live: &Live, p: Profile) -> Q {
         4 => Q::InsertIndex(gen_key(r)),
         5 => Q::RemoveIndex(if !live.index_keys.is_empty() && r.chance(4, 5) { r.pick(&live.index_keys).clone() } else { gen_key(r) }),
         6 => Q::Remove(gen_ids(r, live, false, 2, true)),
-        7 => Q::RemoveAliases((0..r.range(1, 2)).map(|_| gen_alias(r, live, 2)).collect()),
+        7 => Q::RemoveAliases((0..r.range(1, 2)).map(|_| gen_alias_p(r, live, 2, p)).collect()),
         _ => Q::RemoveValues(gen_ids(r, live, false, 2, true), (0..r.range(1, 2)).map(|_| gen_key(r)).collect()),
     }
 }
@@ -238,5 +341,92 @@ pub fn gen_select(r: &mut Rng, live: &Live, p: Profile) -> Q {
         7 => Q::SelectIndexes,
         8 => Q::SelectNodeCount,
         _ => Q::SearchQ(Box::new(gen_search(r, live, true, false))),
+    }
+}
+
+
+// ---------------------------------------------------------------------------------------------
+// Profile::Big — a few bulk steps build a graph of 15-45 nodes with tie-heavy keys ("g" in 0..3),
+// a key "ok" present on part of the elements and many edges; then targeted searches:
+// ordering with ties + limit/offset beyond 16 results, path searches whose conditions fail on some
+// elements without stopping, and condition lists that chain a traversal-stopping condition with `or`.
+pub fn gen_big_build(r: &mut Rng, live: &Live, stage: usize) -> Q {
+    let kv = |k: &str, v: DbValue| DbKeyValue { key: DbValue::String(k.into()), value: v };
+    let elem_kvs = |r: &mut Rng| {
+        let mut l = vec![kv("g", DbValue::I64(r.below(3) as i64))];
+        if r.chance(3, 5) { l.push(kv("ok", DbValue::I64(1))); }
+        if r.chance(1, 2) { l.push(kv("w", DbValue::I64(r.below(5) as i64))); }
+        l
+    };
+    if stage == 0 || live.nodes.len() < 4 {
+        let n = r.range(12, 30);
+        Q::InsertNodes(0, Qvalues::Multi((0..n).map(|_| elem_kvs(r)).collect()), vec![], Qids::Ids(vec![]))
+    } else {
+        let pick = |r: &mut Rng, k: u64| -> Vec<Qid> { (0..k).map(|_| Qid::Id(*r.pick(&live.nodes))).collect() };
+        if r.chance(1, 2) {
+            let (a, b) = (r.range(3, 6), r.range(3, 6));
+            Q::InsertEdges(Qids::Ids(pick(r, a)), Qids::Ids(pick(r, b)), Qvalues::Multi((0..a * b).map(|_| elem_kvs(r)).collect()), true, Qids::Ids(vec![]))
+        } else {
+            let a = r.range(8, 20);
+            Q::InsertEdges(Qids::Ids(pick(r, a)), Qids::Ids(pick(r, a)), Qvalues::Multi((0..a).map(|_| elem_kvs(r)).collect()), false, Qids::Ids(vec![]))
+        }
+    }
+}
+
+fn plain_cond(r: &mut Rng, live: &Live, and: bool) -> Cond {
+    let s = |k: &str| DbValue::String(k.into());
+    let data = match r.below(6) {
+        0 => CondData::Node,
+        1 => CondData::Edge,
+        2 => CondData::Keys(vec![s("ok")]),
+        3 => CondData::KeyValue(s("g"), ["eq", "ne", "lt", "ge"][r.below(4) as usize], DbValue::I64(r.below(3) as i64)),
+        4 => CondData::EdgeCountFrom(gen_cc(r, 3)),
+        _ => CondData::Ids((0..r.range(1, 3)).map(|_| gen_qid(r, live, false)).collect()),
+    };
+    Cond { and, modifier: if r.chance(1, 6) { "not" } else { "none" }, data }
+}
+
+fn stopping_cond(r: &mut Rng, live: &Live, and: bool) -> Cond {
+    match r.below(4) {
+        0 => Cond { and, modifier: "none", data: CondData::Distance(CC::Eq(r.range(1, 4))) },
+        1 => { let mut c = plain_cond(r, live, and); c.modifier = "notbeyond"; c }
+        2 => { let mut c = plain_cond(r, live, and); c.modifier = "beyond"; c }
+        _ => Cond { and, modifier: "none", data: CondData::Where(vec![stopping_cond(r, live, true), { let a = r.chance(1, 2); plain_cond(r, live, a) }]) },
+    }
+}
+
+pub fn gen_big_search(r: &mut Rng, live: &Live) -> Search {
+    let n = (live.nodes.len() + live.edges.len()) as u64;
+    let s = |k: &str| DbValue::String(k.into());
+    let node = |r: &mut Rng| if live.nodes.is_empty() { Qid::Id(1) } else { Qid::Id(*r.pick(&live.nodes)) };
+    match r.below(3) {
+        0 => { // ordering with ties and a cut inside a large result
+            let alg = ['b', 'd', 'e'][r.below(3) as usize];
+            let mut order = vec![(r.chance(1, 2), s(["g", "g", "missing", "w"][r.below(4) as usize]))];
+            if r.chance(1, 3) { order.push((r.chance(1, 2), s("w"))); }
+            let limit = if r.chance(5, 6) { r.range(1, n.max(2)) } else { 0 };
+            let offset = if r.chance(1, 2) { 0 } else { r.below(n / 2 + 1) };
+            let conds = if r.chance(1, 2) { vec![] } else { vec![plain_cond(r, live, true)] };
+            Search { alg, origin: if alg == 'e' { Qid::Id(0) } else { node(r) }, dest: Qid::Id(0), limit, offset, order, conds }
+        }
+        1 => { // path search with conditions that fail on some elements without stopping the search
+            let conds = match r.below(4) {
+                0 => vec![Cond { and: true, modifier: "none", data: CondData::Keys(vec![s("ok")]) }],
+                1 => vec![Cond { and: true, modifier: "none", data: CondData::KeyValue(s("g"), "ne", DbValue::I64(r.below(3) as i64)) }],
+                2 => vec![plain_cond(r, live, true), { let a = r.chance(1, 2); plain_cond(r, live, a) }],
+                _ => vec![],
+            };
+            let (limit, offset) = if r.chance(3, 4) { (0, 0) } else { (r.below(8), r.below(4)) };
+            Search { alg: 'b', origin: node(r), dest: node(r), limit, offset, order: vec![], conds }
+        }
+        _ => { // a traversal-stopping condition chained with or / and
+            let mut conds = vec![stopping_cond(r, live, true)];
+            conds.push({ let a = r.chance(1, 3); plain_cond(r, live, a) });
+            if r.chance(1, 3) { conds.push({ let a = r.chance(1, 2); plain_cond(r, live, a) }); }
+            if r.chance(1, 4) { conds.rotate_left(1); }
+            let alg = ['b', 'd'][r.below(2) as usize];
+            let (origin, dest) = if r.chance(3, 4) { (node(r), Qid::Id(0)) } else { (Qid::Id(0), node(r)) };
+            Search { alg, origin, dest, limit: 0, offset: 0, order: vec![], conds }
+        }
     }
 }
